@@ -1,5 +1,5 @@
 """C14 - merge and duplicate preserve content and independence"""
-from props import comps_merge, comps_tree, oracles
+from props import comps_c14x, comps_merge, comps_tree, oracles
 
 PID = "C14"
 LEVEL = "proof"
@@ -10,7 +10,7 @@ def components():
 
 
 def oracles_():
-    return [oracles.MergeDup()]
+    return [oracles.MergeDup(), comps_c14x.DupMatrix(), comps_c14x.MergeKinds()]
 
 
 TRUSTED = [
